@@ -17,6 +17,9 @@
     token list has such a reading; the list combinators return exactly its entries, a lexer delivering
     exactly what it leaves, and a sink log that grew by exactly one error per bad segment plus the
     count error when there are fewer than [lo] entries ([C11_segments_*]).
+    WITHOUT a sink: when the reading meets a bad segment (after good ones, the upper bound not reached
+    before it), the list returns an error - the first bad segment's - and the store is untouched
+    ([C11_no_sink_first_bad_segment]).
     Partial: WHERE in the segment the reported error's span lies is decided by the correspondence run
     and the python segment oracle (the leaf errors' spans are C13's theorems). *)
 From Tephra Require Import MetricsSpec CLexer LexerFacts Run Peg RunCore RunRecover RunList RunListOk RunListSeg.
@@ -151,6 +154,27 @@ Theorem C11_segment_reading_exists :
   forall s cnt, exists vs k s2, seg_list a sep ab dflt hi cnt s vs k s2.
 Proof. intros a sep ab dflt hi Ha s cnt. exact (proj2 (seg_reading_exists a sep ab dflt hi Ha (length s)) s (le_n _) cnt). Qed.
 Print Assumptions C11_segment_reading_exists.
+
+(** without a sink the first bad segment's error is returned instead *)
+Theorem C11_no_sink_first_bad_segment :
+  forall m, 1 <= tabw m -> forall t, wf_text t ->
+  forall a sep ab lo hi f0 F c lx ys st,
+  F = S (S (S f0)) -> hi <> Some 0 -> (forall h, hi = Some h -> lo <= h) ->
+  in_core a = true -> gdepth a < f0 -> has_sink c = false -> Inv m t lx ys -> c_rec lx = None ->
+  first_bad a sep ab hi 0 (kept (c_filter lx) ys) -> 2 * length (kept (c_filter lx) ys) + 2 < F ->
+  exists e, run (S F) (GListBDef lo hi a sep ab) lx c st = (RErr e, st).
+Proof. exact list_bounded_default_first_bad. Qed.
+Print Assumptions C11_no_sink_first_bad_segment.
+
+Theorem C11_no_sink_first_bad_segment_list_bounded :
+  forall m, 1 <= tabw m -> forall t, wf_text t ->
+  forall a sep ab lo hi f0 F c lx ys st,
+  F = S (S (S f0)) -> hi <> Some 0 -> (forall h, hi = Some h -> lo <= h) ->
+  in_core a = true -> S (gdepth a) < f0 -> has_sink c = false -> Inv m t lx ys -> c_rec lx = None ->
+  first_bad (GSomeOf a) sep ab hi 0 (kept (c_filter lx) ys) -> 2 * length (kept (c_filter lx) ys) + 2 < F ->
+  exists e, run (S F) (GListB lo hi a sep ab) lx c st = (RErr e, st).
+Proof. exact list_bounded_first_bad. Qed.
+Print Assumptions C11_no_sink_first_bad_segment_list_bounded.
 
 (** concrete: list_default(one a, ',', [';']) on "a,b b,a;" with a sink: three entries, the middle
     one the placeholder, exactly one error, the lexer in front of ';' *)
